@@ -78,3 +78,24 @@ func Get(id string) *Prop {
 	}
 	return nil
 }
+
+// Technique names, per property, the static methods that decide it (MANIFEST "technique").
+var Technique = map[string]string{
+	"C01": "key-table extraction over Put/Get/Delete call shapes, dominance of counter persistence over success exits, value-flow pairing of allocator ids",
+	"C02": "provenance slicing for case-fold sibling agreement, switch/case table extraction, phi-edge operator table, sign-class abstract interpretation of the key codec",
+	"C04": "writer/reader/enumerator key-table agreement per Storable (exhaustive path enumeration of loop-free methods), enum-switch exhaustiveness",
+	"C07": "typestate of cache transactions on the CFG, must-pass-through (scrap on failure), error-result use analysis over the VTA-reachable write path, goroutine join-chain analysis of select states",
+	"C08": "sibling completeness of flush methods, success-exit dominance, dirty-flag post-dominance, key tables, constant-key write/read pairing",
+	"C09": "read-only effect analysis over the VTA call graph with path-sensitive must-held locksets, guarded-by table, lock-order graph SCCs",
+	"C10": "value-flow pairing of node and vector mutations, key tables (delete ⊇ write), flush completeness",
+	"C11": "path-sensitive lock-state exploration (acquire/release pairing incl. hand-over), lock-order graph, must-pass-through on failure edges, non-blocking reader path",
+	"C12": "lock-order graph SCCs, guarded-by table, nil-check typestate and dominance ordering of unregister-before-remove",
+	"C13": "backward provenance slice of the hash input and comparator, who-may-store on the server list, every Dest initialiser traced to RendezvousHash over the full list",
+	"C14": "edge dominance (delete only behind verify), provenance of the reported checksum, open-flag constant analysis on the first-chunk path, call order in main",
+	"C15": "edge dominance of the quota tests over every side-effecting call",
+	"C16": "provenance of bucket keys, scan prefixes, directory paths and handler user ids",
+	"C17": "sibling cross-check of all RPC handlers (self-route constant, guard, arguments), range-operand and length-comparison provenance of fan-out loops",
+	"C18": "who-may-read of the request body, dominance of validation over cluster calls, binding-tag vs Validate comparison tables, enum/type tables, tagged-union dereference guards",
+	"C19": "sign-class abstract interpretation of encoder and decoder, constructor/decoder layout tables (length, constant bytes, offsets, endianness), key-shape disjointness",
+	"C20": "affine abstract interpretation of the Plan-9 AVX kernels (stride, coverage, bounds, accumulator folding), constant agreement of bit packing, operator commutativity",
+}
